@@ -32,7 +32,7 @@ ASSUMPTIONS = [
     "outside the quantifier of the property: its failures are recorded as anomalies, not witnesses",
     "a run that writes no file (empty suite or failed export) has nothing to execute: recorded as an anomaly",
     "driver timeouts / crashes of the harness are inconclusive, never a violation",
-    "a run in which Pynguin logged test-execution timeouts *during assertion generation* (machine load) may keep unverified, state-dependent assertions "
+    "a run in which an assertion-filtering execution timed out (machine load; observed at the filter itself) keeps unverified, state-dependent assertions "
     "(AssertionGenerator's filter removes nothing for a timed-out filtering execution): AssertionError failures of such runs are "
     "anomalies (after-execution-timeouts:*), every other failure mechanism stays a witness",
 ]
@@ -122,6 +122,28 @@ def _mechanism(rec, fileinfo, fn):
     return f"fails:{exc}:{where}"
 
 
+def _statements_removed_after_assertion_generation(res, test_name):
+    """Number of statements the post-processing removed from the test case exported as ``test_name`` *after* its assertions had
+    been generated (from the assertion_snapshot monitor); None when unknown.  A removed call may have changed the state a
+    surviving assertion observes."""
+    from vlib import genfiles
+
+    m = re.match(r"^test_(\d+)$", test_name)
+    if not m:
+        return None
+    snaps = {e["step"]: e["tests"] for e in res.get("events", []) if e.get("ev") == "snapshot"}
+    if "generated" not in snaps or "export-entry" not in snaps:
+        return None
+    tx = next((t for t in snaps["export-entry"] if t["pos"] == int(m.group(1))), None)
+    if tx is None:
+        return None
+    t0 = next((t for t in snaps["generated"] if t["tid"] == tx["tid"]), None)
+    if t0 is None:
+        return None
+    align = genfiles.align_statements(t0["stmts"], [(s["bound"], genfiles.code_rhs_key(s["code"])) for s in tx["stmts"]])
+    return sum(1 for j in align if j is None)
+
+
 def _file_classes(fi, text, c):
     cl = ["file", f"ag:{c['ag']}", f"algo:{c['algo']}", f"no_xfail:{'on' if c['no_xfail'] else 'off'}",
           f"black:{'on' if c['black'] else 'off'}", f"post_process:{'on' if c['post_process'] else 'off'}", f"sut:{c['sut']}"]
@@ -190,10 +212,9 @@ def check_file(ctx, r):
         ctx.inconclusive_because(f"{r['tag']}: pytest produced no junit XML (rc {pt['rc']}): {pt['stdout'][-300:]}")
         return
     nondet = c["sut"] in NONDETERMINISTIC_SUTS
-    log_counts = next((e["counts"] for e in r["res"].get("events", []) if e.get("ev") == "log-counts"), {})
-    had_timeouts = log_counts.get("timeouts_during_assertion_generation", 0) > 0
+    had_timeouts = genfiles.unverified_assertions(r["res"])
     if had_timeouts:
-        ctx.cls("run:execution-timeouts-during-assertion-generation")
+        ctx.cls("run:assertion-filter-execution-timed-out")
     classes = _file_classes(fi, r["f1"], c)
     ctx.ok(0, distinct=core.stable_hash(r["f1"]))
     for name in classes:
@@ -241,6 +262,11 @@ def check_file(ctx, r):
             report("skipped-test", f"{t['name']} was skipped: {t['message'][:120]}", {"function": ast.unparse(fn)[:1200] if fn else None})
             continue
         key = _mechanism(t, fi, fn)
+        if key.startswith("fails:AssertionError"):
+            removed = _statements_removed_after_assertion_generation(r["res"], t["name"])
+            if removed:
+                # the value was observed before statement minimisation removed calls from this test case
+                key += ":after-statement-removal"
         src, err = _failing_line(t["text"])
         report(key, f"{t['name']} {t['outcome']}: {t['message'][:160]} @ {src}",
                {"test": t["name"], "failing_line": src, "error": list(err) if err else None, "function": ast.unparse(fn)[:1500] if fn else None,
